@@ -73,7 +73,8 @@ def plan(pid, tier):
     q = tier == "quick"
     P = {
         "C01": dict(mc=[inst_c01(5 if q else 7)], drivers=[("boundary", 1, []), ("fuzz", 300 if q else 30000, [])]),
-        "C03": dict(mc=[inst_kernels(1, lines="RunOnly"), inst_kernels(1, lines="RunOnly", kernels="MatrixKernels")], drivers=[("progs", 240 if q else 4000, [])]),
+        "C03": dict(mc=[inst_kernels(1, lines="RunOnly"), inst_kernels(1, lines="RunOnly", kernels="MatrixKernels"), inst_kernels(1, lines="RunOnly", kernels="ScaleKernels"),
+                        inst_kernels(1, lines="RunOnly", kernels="CapKernels")], drivers=[("progs", 240 if q else 4000, [])]),
         "C04": dict(mc=[inst_c04(4 if q else 5)], drivers=[]),
         "C07": dict(mc=[inst_kernels(3 if q else 4, lines="BreakLines"), inst_kernels(3 if q else 4, lines="RunCont", kernels="MatrixKernels")], drivers=[("breakcont", 60 if q else 3000, []), ("stopassign", 120 if q else 4000, [])]),
         "C08": dict(mc=[inst_kernels(2 if q else 3, lines="BreakLines", kernels="InputKernels"), inst_kernels(2 if q else 3, lines="BreakLines", kernels="MatrixInputKernels")],
@@ -81,7 +82,8 @@ def plan(pid, tier):
         "C09": dict(mc=[inst_kernels(1, trace=True, lines="RunOnly"), inst_kernels(1, trace=True, lines="RunOnly", kernels="MatrixKernels")], drivers=[("progs", 200 if q else 3000, ["trace", "input"]), ("progs", 120 if q else 2000, ["trace", "breaks"])]),
         "C10": dict(mc=[inst_c01(5 if q else 6)], drivers=[("runfresh", 120 if q else 6000, [])]),
         "C11": dict(mc=[inst_kernels(3 if q else 4, lines="EditLines")], drivers=[("editprobe", 150 if q else 6000, [])]),
-        "C16": dict(mc=[inst_kernels(1, lines="RunOnly", kernels="CapKernels"), inst_c01(4 if q else 6), inst_immloops(4 if q else 6)],
+        "C16": dict(mc=[inst_kernels(1, lines="RunOnly", kernels="CapKernels"), inst_kernels(1, lines="RunOnly", kernels="ScaleKernels"), inst_c01(4 if q else 6), inst_immloops(4 if q else 6),
+                        inst_kernels(3, lines="CapProbeLines", kernels="CapBreakKernels")],
                     drivers=[("boundary", 1, []), ("fuzz", 200 if q else 20000, []), ("progs", 40 if q else 1500, [])]),
         "C17": dict(mc=[inst_kernels(2 if q else 3, trace=True, warn=True, lines="BreakLines"), inst_kernels(2 if q else 3, trace=True, warn=True, lines="RunCont", kernels="MatrixKernels")], drivers=[("flags4", 80 if q else 2000, [])]),
     }
@@ -221,6 +223,8 @@ def run(pid, tier, seed):
                     violations.append({**v, "property": "C03"})
     if pid == "C01":
         dv, dn = c.deep_probes(pid, ["paren", "abs", "index", "ifthen", "not", "dimsubs", "implicit"])
+        dv2, dn2 = c.deep_probes(pid, ["fnrec-paren", "fnrec-index", "fnmutual-paren"], depths=(5, 30, 60))      # two caps multiplied
+        dv, dn = dv + dv2, dn + dn2
         violations += dv
         cov["deep_nesting_probes_in_child_processes"] = dn
     cov["unexplained_divergences"] = len(unexplained)
